@@ -472,9 +472,9 @@ func genC03(e *emitter, r *rng, thorough bool) {
 			u2.SetInt64(3)
 		}
 		construct("cons.generic", modN(new(big.Int).SetBytes(r.bytes(32))), u2)
-		construct("cons.double", modN(new(big.Int).Mul(u2, d)), u2)            // u1 G = u2 Q
+		construct("cons.double", modN(new(big.Int).Mul(u2, d)), u2)                     // u1 G = u2 Q
 		construct("cons.infinity", modN(new(big.Int).Neg(new(big.Int).Mul(u2, d))), u2) // u1 G = -u2 Q
-		construct("cons.e0", new(big.Int), u2)                                  // e = 0: first product is infinity
+		construct("cons.e0", new(big.Int), u2)                                          // e = 0: first product is infinity
 		construct("cons.u1=1", one, u2)
 		// hash >= N encodes e mod N
 		u1 := modN(new(big.Int).SetBytes(r.bytes(16)))
@@ -816,4 +816,39 @@ func genC14(e *emitter, r *rng, thorough bool) {
 		b := r.bytes(r.intn(300))
 		e.emit("hash.rand", r.pick("hash.sha256", "hash.sha256d", "hash.ripemd160", "hash.hash160")+" "+hx(b))
 	}
+}
+
+// consRxWrap constructs, for the hash hh, a key Q and a signature (r, s) whose nonce point R has its x coordinate
+// in [N, P): x(R) = N + t, r = t, s free, Q = r^-1 (s R - e G).  A verifier must reduce x(R) mod N to accept it.
+func consRxWrap(r *rng, hh []byte, t0 int64) (q pt, rr, ss *big.Int, ok bool) {
+	for t := t0; t < t0+400; t++ {
+		xR := new(big.Int).Add(curveN, big.NewInt(t))
+		if xR.Cmp(curveP) >= 0 {
+			return
+		}
+		R, err := bec.ParsePubKey(append([]byte{byte(2 + r.intn(2))}, pad32(xR.Bytes())...), bec.S256())
+		if err != nil {
+			continue
+		}
+		rr = big.NewInt(t)
+		ss = modN(new(big.Int).SetBytes(r.bytes(32)))
+		if ss.Sign() == 0 {
+			ss.SetInt64(7)
+		}
+		h := hh
+		if len(h) > 32 {
+			h = h[:32]
+		}
+		ee := modN(new(big.Int).SetBytes(h))
+		sx, sy := bec.S256().ScalarMult(R.X, R.Y, ss.Bytes())
+		ex, ey := bec.S256().ScalarBaseMult(modN(new(big.Int).Neg(ee)).Bytes())
+		tx, ty := bec.S256().Add(sx, sy, ex, ey)
+		qx, qy := bec.S256().ScalarMult(tx, ty, invN(rr).Bytes())
+		q = pt{qx, qy}
+		if q.isInf() {
+			continue
+		}
+		return q, rr, ss, true
+	}
+	return
 }
